@@ -100,8 +100,14 @@ def w_model(ctx, rng, idx, param):
         alt = tuple((a * q if isinstance(a, float) else a) for a in args)
     if alt is not None and rng.random() < 0.6:
         call('models.' + name, fn, *alt, prop=P, tags=['model=' + name, 'neighbour_call'])
-    ok, res = call('models.' + name, fn, *args, prop=P, tags=['model=' + name])
-    if rng.random() < 0.4:
+    mutable_params = name in ('co_oxidation', 'two_step_destruction', 'exciton_chain', 'ising') and rng.random() < 0.2
+    if mutable_params:
+        # continuous parameters held in MUTABLE numeric objects (0-d arrays, 0-d views into the caller's parameter table): the values a
+        # constructor is given stay the caller's - it is asked again with the same objects below
+        tbl = np.array([float(a) if isinstance(a, float) else 0.0 for a in args])
+        args = tuple((np.array(a) if rng.random() < 0.5 else tbl[k_][...]) if isinstance(a, float) else a for k_, a in enumerate(args))
+    ok, res = call('models.' + name, fn, *args, prop=P, tags=['model=' + name] + (['parameters_in_mutable_objects'] if mutable_params else []))
+    if mutable_params or rng.random() < 0.4:
         # the caller changes what it was handed (documented in-place operations on the returned trains / arrays) and asks again:
         # the second answer must be a fresh, correct one
         if ok:
